@@ -437,6 +437,42 @@ def linop_crash_oracle(ctx):
                       "changed_after_backward": [k for k in before if after_b[k] != before[k]]}, "every attribute is the same tensor object")
 
 
+def debug_flag_probe(ctx):
+    """enable_debug() / disable_debug(): on exit - normal or through an exception - the global flag has the value it had on entry,
+    whatever it had on entry and whatever the body (or user code called by a functional inside the body) set it to (round-4 seed
+    C10/12: disable_debug restored the flag only when it had been on)"""
+    import xitorch as xt
+    from xitorch.debug.modes import enable_debug, disable_debug, set_debug_mode, is_debug_enabled
+    from xitorch.integrate import quad
+    saved = is_debug_enabled()
+    try:
+        for initial in (False, True):
+            for cmname, cm in (("enable_debug", enable_debug), ("disable_debug", disable_debug)):
+                for inner in (None, True, False):
+                    for how in ("normal", "raises", "inside-quad"):
+                        set_debug_mode(initial)
+                        try:
+                            with cm():
+                                if how == "inside-quad":
+                                    def integrand(x):
+                                        if inner is not None:
+                                            set_debug_mode(inner)
+                                        return x * x
+                                    quad(integrand, 0.0, 1.0, n=3)
+                                elif inner is not None:
+                                    set_debug_mode(inner)
+                                if how == "raises":
+                                    raise Boom()
+                        except Boom:
+                            pass
+                        ctx.count(("debug-flag", initial, cmname, inner, how))
+                        if is_debug_enabled() != initial:
+                            ctx.fail("oracle", "debug-flag:%s:not-restored" % cmname,
+                                     {"flag_on_entry": initial, "body_sets_flag_to": inner, "exit": how}, is_debug_enabled(), initial)
+    finally:
+        set_debug_mode(saved)
+
+
 def check(ctx):
     cases, meta = [], []
     program_cases(ctx, cases, meta)
@@ -448,6 +484,7 @@ def check(ctx):
         ctx.broken("correspondence:purefn-programs", {"case": meta[i], "coq": cases[i][:1200]})
     crash_oracle(ctx, max_k=ctx.n(12, 60))
     linop_crash_oracle(ctx)
+    debug_flag_probe(ctx)
 
 
 def search(ctx):
